@@ -414,6 +414,32 @@ claim(
 )
 
 
+# clauses added in the last build round (DESIGN.md §7.15, §7.16), appended to the level text
+EXTRA = {
+    "C01": " Also decided: the docstring emitter leaves the interface description it is handed unmutated (inter-procedural "
+    "input-mutation analysis, shared with C10.inputmut); needs_quoting traverses the whole type expression (ast.walk, or a "
+    "recursion over every node class a type can be built from).",
+    "C02": " Also decided: the class / function / argparse emitters leave the interface description they are handed unmutated "
+    "(input-mutation analysis); needs_quoting traverses the whole type expression.",
+    "C04": " Also decided: the class / function / argparse emitters leave the interface description they are handed unmutated; "
+    "needs_quoting traverses the whole type expression.",
+    "C05": " Also decided: none of the three emitters mutates the interface description it is handed (the variants are emitted one "
+    "after the other from one description), and the class parser leaves the syntax tree it is handed alone.",
+    "C06": " Also decided: the emitter leaves the interface description unmutated (second emission lists the same required "
+    "properties); every JSON-schema keyword the property emitter writes is looked at by the property parser; no default is "
+    "tested by truthiness on the way to the schema.",
+    "C08": " An absence flag discharges a growth site only if the flag's own definition tests for the artefact.",
+    "C11": " Steps whose sign is unknown (the value of an unknown call, a variable not computed as a length / count / find "
+    "result on the path) earn no progress credit; numeric counters and str-typed parameters are not changed by being "
+    "handed to a callee.",
+    "C12": " Also decided: a target appended to an existing file starts on a line of its own (the file need not end in a newline).",
+    "C15": " Also decided: no slice `S[:-N]` in the splitters / parsers uses an N computed in the function that may be 0 "
+    "(`S[:-0]` keeps nothing).",
+    "C16": " Also decided: no reader of a routes module keys a mapping by the handler's name (the templates name every handler "
+    "by its CRUD verb only, so names repeat per model and per app).",
+}
+
+
 def main():
     """write MANIFEST.json"""
     props = [json.loads(l)["id"] for l in open(os.path.join(HERE, "properties.jsonl"))]
@@ -422,6 +448,7 @@ def main():
         if pid not in CLAIMED:
             continue
         technique, text, note, ref = CLAIMED[pid]
+        text = text + EXTRA.get(pid, "")
         checks.append(
             {
                 "property_id": pid,
